@@ -8,7 +8,9 @@ import (
 	"fmt"
 	"os"
 	"sort"
+	"strconv"
 	"strings"
+	"syscall"
 	"time"
 
 	"vx/vsched"
@@ -71,6 +73,7 @@ var (
 	flagReplays = flag.String("replaydir", "/verif/replays", "where violation replays are written")
 	flagTrace   = flag.Bool("trace", false, "print the trace of the default execution of every scenario")
 	flagOnly    = flag.Int("only", -1, "run only this scenario index")
+	flagQueue   = flag.String("queue", "", "shared counter file: scenarios are claimed dynamically instead of by index modulo shards")
 )
 
 func hashStr(s string) string {
@@ -92,13 +95,24 @@ func runScens(prop string, scens []Scen) *ShardResult {
 		deadline = t0.Add(*flagBudget)
 	}
 	seenKeys := map[string]bool{}
+	next := -1
+	if *flagQueue != "" && *flagOnly < 0 {
+		next = claim(*flagQueue)
+	}
 	for i, sc := range scens {
 		if *flagOnly >= 0 {
 			if i != *flagOnly {
 				continue
 			}
+		} else if *flagQueue != "" {
+			if i != next {
+				continue
+			}
 		} else if i%*flagShards != *flagShard {
 			continue
+		}
+		if *flagQueue != "" && *flagOnly < 0 {
+			next = -2 // claim the following one after this scenario is done (see end of loop body)
 		}
 		if !deadline.IsZero() && time.Now().After(deadline) {
 			res.Capped = true
@@ -159,7 +173,11 @@ func runScens(prop string, scens []Scen) *ShardResult {
 			}
 			return ""
 		}
+		ts := time.Now()
 		ex.Explore(sc.Body)
+		if os.Getenv("VX_PROFILE") != "" {
+			fmt.Fprintf(os.Stderr, "PROFILE %d execs=%d wall=%.2f bound=%d %s\n", i, ex.Stats.Executions, time.Since(ts).Seconds(), sc.Bound, jstr(sc.Desc))
+		}
 		for _, f := range pending {
 			if res.Infra != "" {
 				break
@@ -204,9 +222,31 @@ func runScens(prop string, scens []Scen) *ShardResult {
 		if res.Infra != "" {
 			break
 		}
+		if next == -2 {
+			next = claim(*flagQueue)
+		}
 	}
 	res.WallS = time.Since(t0).Seconds()
 	return res
+}
+
+// claim atomically takes the next scenario index from the shared counter file.
+func claim(path string) int {
+	f, err := os.OpenFile(path, os.O_RDWR|os.O_CREATE, 0o644)
+	if err != nil {
+		panic(err)
+	}
+	defer f.Close()
+	if err := syscall.Flock(int(f.Fd()), syscall.LOCK_EX); err != nil {
+		panic(err)
+	}
+	defer syscall.Flock(int(f.Fd()), syscall.LOCK_UN)
+	buf := make([]byte, 32)
+	n, _ := f.ReadAt(buf, 0)
+	v, _ := strconv.Atoi(strings.TrimSpace(string(buf[:n])))
+	f.Truncate(0)
+	f.WriteAt([]byte(strconv.Itoa(v+1)), 0)
+	return v
 }
 
 func emit(res *ShardResult) {
